@@ -96,17 +96,67 @@ Proof.
 Qed.
 Print Assumptions C17_accept_implies_subset_partial.
 
-(* ... and the full statement (any two documented option sets) is false of the faithful model: a
-   support header generated with `--language-standard c11` (which adds the option `std`) is accepted
-   by C type headers generated without it.  Known finding F-OPTGUARD-EXTRA-SUPPORT-KEY. *)
+(* ... and in a tree whose templates do not carry the key-set fingerprint the full statement (any two
+   documented option sets) is false of the faithful model: a support header generated with
+   `--language-standard c11` (which adds the option `std`) is accepted by C type headers generated
+   without it.  Known finding F-OPTGUARD-KEYSET. *)
 Theorem C17_guard_full_refuted :
+  sd_keyset c_type_side = None ->
   exists o_s o_t : opts,
     in_domainb c_domain o_s = true /\ in_domainb c_domain o_t = true /\
-    compiles_together sav c_support_side c_type_side o_s o_t = true /\ o_s <> o_t.
-Proof. exists (set_key k_std v_c11 c_defaults), c_defaults. exact extra_support_key_accepted. Qed.
+    keys_documentedb c_keysets o_s = true /\ keys_documentedb c_keysets o_t = true /\
+    compiles_together_full sav c_support_side c_type_side o_s o_t = true /\ ~ (forall kv, In kv o_s <-> In kv o_t).
+Proof. exact full_refuted_without_keyset. Qed.
 Print Assumptions C17_guard_full_refuted.
 
-(* the opposite order is rejected, but by an undeclared symbol instead of the assertion *)
+(* (5') With the key-set fingerprint (support header defines, every type header asserts the CRC of the
+   sorted, comma-joined key list under a reserved symbol) the FULL statement holds: for all option sets
+   over the documented values and documented key sets, no assumption relating the two key lists:
+   everything a type header checks passes <-> the two option sets are the same set.  Live when the
+   scanner finds the fingerprint on both sides (keyset_guarded = true), vacuous otherwise. *)
+Theorem C17_guard_rejects_iff_differ_full_c :
+  keyset_guarded c_support_side c_type_side = true ->
+  forall o_s o_t : opts,
+    in_domainb c_domain o_s = true -> in_domainb c_domain o_t = true ->
+    keys_documentedb c_keysets o_s = true -> keys_documentedb c_keysets o_t = true ->
+    nodupb (map fst o_s) = true -> nodupb (map fst o_t) = true ->
+    (compiles_together_full sav c_support_side c_type_side o_s o_t = true <-> (forall kv, In kv o_s <-> In kv o_t)).
+Proof.
+  intros G o_s o_t.
+  exact (guard_full_general sav c_domain c_support_side c_type_side c_domain_ok c_sides_agree c_keysets o_s o_t G c_keysets_ok).
+Qed.
+Print Assumptions C17_guard_rejects_iff_differ_full_c.
+
+Theorem C17_guard_rejects_iff_differ_full_cpp :
+  keyset_guarded cpp_support_side cpp_type_side = true ->
+  forall o_s o_t : opts,
+    in_domainb cpp_domain o_s = true -> in_domainb cpp_domain o_t = true ->
+    keys_documentedb cpp_keysets o_s = true -> keys_documentedb cpp_keysets o_t = true ->
+    nodupb (map fst o_s) = true -> nodupb (map fst o_t) = true ->
+    (compiles_together_full sav cpp_support_side cpp_type_side o_s o_t = true <-> (forall kv, In kv o_s <-> In kv o_t)).
+Proof.
+  intros G o_s o_t.
+  exact (guard_full_general sav cpp_domain cpp_support_side cpp_type_side cpp_domain_ok cpp_sides_agree cpp_keysets o_s o_t G cpp_keysets_ok).
+Qed.
+Print Assumptions C17_guard_rejects_iff_differ_full_cpp.
+
+(* the fingerprint is either on both sides of a language or on neither; it is defined and injective on
+   the documented key sets; its reserved symbol is not the symbol of a documented option; without it
+   the complete diagnostics are the per-option ones of (1), (2) *)
+Theorem C17_keyset_facts :
+  ((keyset_guarded c_support_side c_type_side || keyset_absent c_support_side c_type_side = true) /\
+   (keyset_guarded cpp_support_side cpp_type_side || keyset_absent cpp_support_side cpp_type_side = true)) /\
+  (keysets_ok sav c_keysets = true /\ keysets_ok sav cpp_keysets = true) /\
+  (keyset_symbol_free c_support_side c_symbols = true /\ keyset_symbol_free c_type_side c_symbols = true /\
+   keyset_symbol_free cpp_support_side cpp_symbols = true /\ keyset_symbol_free cpp_type_side cpp_symbols = true) /\
+  (forall sup typ o_s o_t, sd_keyset typ = None -> compile_full sav sup typ o_s o_t = compile sav sup typ o_s o_t).
+Proof.
+  exact (conj keyset_consistent (conj (conj c_keysets_ok cpp_keysets_ok) (conj keyset_symbols_free (compile_full_without_keyset sav)))).
+Qed.
+Print Assumptions C17_keyset_facts.
+
+(* the opposite order: the per-option assertions hit an undeclared symbol instead of failing (with the
+   fingerprint the key-set assertion fails first, see compile_full) *)
 Theorem C17_extra_type_key_undeclared :
   compile sav c_support_side c_type_side c_defaults (set_key k_std v_c11 c_defaults) = Some [Undeclared k_std].
 Proof. exact extra_type_key_undeclared. Qed.
@@ -145,7 +195,9 @@ Print Assumptions C17_filter_facts.
 Theorem C17_omit_support :
   (forall o, compile_omit sav cpp_type_side o = Some []) /\
   (forall typ o, sd_unless_omit typ = false ->
-     compile_omit sav typ o = option_map (map (fun a => Undeclared (snd (fst a)))) (rendered sav typ o)).
+     compile_omit sav typ o
+     = option_map (fun t => (match sd_keyset typ with Some _ => [KeySetUndeclared] | None => [] end)
+                            ++ map (fun a => Undeclared (snd (fst a))) t) (rendered sav typ o)).
 Proof. exact (conj omit_cpp_no_asserts omit_unguarded_all_undeclared). Qed.
 Print Assumptions C17_omit_support.
 
@@ -155,6 +207,12 @@ Example C17_defaults_in_domain :
   (in_domainb c_domain c_defaults = true /\ nodupb (map fst c_defaults) = true) /\
   (in_domainb cpp_domain cpp_defaults = true /\ nodupb (map fst cpp_defaults) = true).
 Proof. exact (conj c_defaults_in_domain cpp_defaults_in_domain). Qed.
+
+(* ... their key sets (and C defaults + std) are documented key sets ... *)
+Example C17_default_keys_documented :
+  keys_documentedb c_keysets c_defaults = true /\ keys_documentedb c_keysets (set_key k_std v_c11 c_defaults) = true /\
+  keys_documentedb cpp_keysets cpp_defaults = true.
+Proof. exact default_keys_documented. Qed.
 
 (* ... the domains offer a choice, the docstring examples exist ... *)
 Example C17_domains_nontrivial :
